@@ -29,6 +29,8 @@ func runC12(w *World, r *Report) {
 	noNestedAcquire(w, r, "R-C12-4", "internal/language/bytecode", "Context")
 	c12SignalsAreNotErrors(w, r)
 	c12TraceNotCaptured(w, r)
+	c12DebuggerKeepsOutcome(w, r)
+	c12DiagnosticOutputNotCaptured(w, r)
 	r.Rule("R-C12-2", "lock pairing: every Lock/RLock in packages bytecode and debugger is released on all paths to a return (directly or by defer)", 10)
 
 	bp := w.pkg("internal/language/bytecode")
